@@ -222,8 +222,12 @@ def attach_log(problem):
     problem.o2log = []
 
     def Calculate(point, functionValue):
-        caller = sys._getframe(1).f_code.co_name
-        phase = "global" if caller == "Calculate" else ("local" if caller == "problemCalculate" else "other")
+        fr = sys._getframe(1).f_code
+        caller, cfile = fr.co_name, fr.co_filename.replace("\\", "/")
+        if "/output_system/" in cfile or "/iOpt/" not in cfile:
+            phase = "other"         # a painter probing the objective, or the caller's own code: not a trial of the search
+        else:
+            phase = "global" if caller == "Calculate" else ("local" if caller == "problemCalculate" else "other")
         pt = tuple(float(v) for v in point.floatVariables)
         res = inner(point, functionValue)
         problem.o2log.append((phase, pt, float(res.value)))
